@@ -149,3 +149,130 @@ Check C08_cli_driver_second_pass :
   forall O p q,
   map stmt_content q = map stmt_content p -> format_cli O q = format_cli O p.
 Print Assumptions C08_cli_driver_second_pass.
+
+(* ======================================================================================================
+   ATTACH composition with the parser model (C09P2; proofs/PegCommentsAttach.v).  The re-attachment theorems above are
+   about the abstract pair-level functions `attach` / `attach_do`.  The parser model (coq/PegComments.v: Peg tree ->
+   item view -> commented Pratt parser = pairs_to_expr_with_comments) handles every list / record / do_block pair, at
+   any nesting depth, with loops that ARE those functions applied to the pair sequence obtained by parsing each item
+   ([lels_pairs] / [rels_pairs] / [dels_pairs]) — so the theorems above speak about what `parse_program_c` builds from
+   the Peg tree of a formatted text.  What is left to correspondence (ATTACH part 2, REPARSE stream): that the tree of
+   the text a layout prints has the pair sequence `layout_pairs items` / `do_layout_pairs stmts ret` (grammar step on
+   the formatter's text), and the AST round trip (C07). *)
+Require Import Blots.Outcome Blots.PrattTypes Blots.gen.PrecTable Blots.Pratt Blots.PegComments Blots.proofs.PegCommentsAttach.
+
+Theorem C08_reparse_attach_matches_model :
+  forall tbl imap pmap f,
+  (forall els, primary_c tbl imap pmap (S f) (IList els) =
+               do ps <- lels_pairs (parse_items_c tbl imap pmap f) els;
+               Outcome.Ok (option_map (fun ps => EList (attach ps)) ps))
+  /\ (forall els, primary_c tbl imap pmap (S f) (IRecord els) =
+                  do ps <- rels_pairs (parse_items_c tbl imap pmap f) els;
+                  Outcome.Ok (option_map (fun ps => ERec (attach ps)) ps))
+  /\ (forall els, do_shape els = true ->
+        exists body g, els = body ++ [DRet g] /\ forallb d_not_ret body = true /\
+        primary_c tbl imap pmap (S f) (IDo els) =
+        do ps <- dels_pairs (parse_items_c tbl imap pmap f) body;
+        match ps with
+        | None => Outcome.Ok None
+        | Some ps' => do e <- parse_items_c tbl imap pmap f g; Outcome.Ok (option_map (do_result ps') e)
+        end).
+Proof. exact reparse_attach_matches_model. Qed.
+Check C08_reparse_attach_matches_model :
+  forall tbl imap pmap f,
+  (forall els, primary_c tbl imap pmap (S f) (IList els) =
+               do ps <- lels_pairs (parse_items_c tbl imap pmap f) els;
+               Outcome.Ok (option_map (fun ps => EList (attach ps)) ps))
+  /\ (forall els, primary_c tbl imap pmap (S f) (IRecord els) =
+                  do ps <- rels_pairs (parse_items_c tbl imap pmap f) els;
+                  Outcome.Ok (option_map (fun ps => ERec (attach ps)) ps))
+  /\ (forall els, do_shape els = true ->
+        exists body g, els = body ++ [DRet g] /\ forallb d_not_ret body = true /\
+        primary_c tbl imap pmap (S f) (IDo els) =
+        do ps <- dels_pairs (parse_items_c tbl imap pmap f) body;
+        match ps with
+        | None => Outcome.Ok None
+        | Some ps' => do e <- parse_items_c tbl imap pmap f g; Outcome.Ok (option_map (do_result ps') e)
+        end).
+Print Assumptions C08_reparse_attach_matches_model.
+
+(* composition with the fixed-point theorems: IF the inner pairs of the container pair in the tree of the formatted
+   text are the layout's pairs, THEN the parser model rebuilds exactly the commented items that were formatted *)
+Theorem C08_reparse_list_fixed_point : forall parse els items,
+  lels_pairs parse els = Outcome.Ok (Some (layout_pairs items)) -> only_last_trailing items = true ->
+  list_arm_c parse els = Outcome.Ok (Some (EList items)).
+Proof. exact reparse_list_fixed_point. Qed.
+Check C08_reparse_list_fixed_point : forall parse els items,
+  lels_pairs parse els = Outcome.Ok (Some (layout_pairs items)) -> only_last_trailing items = true ->
+  list_arm_c parse els = Outcome.Ok (Some (EList items)).
+Print Assumptions C08_reparse_list_fixed_point.
+Theorem C08_reparse_record_fixed_point : forall parse els entries,
+  rels_pairs parse els = Outcome.Ok (Some (layout_pairs entries)) -> only_last_trailing entries = true ->
+  rec_arm_c parse els = Outcome.Ok (Some (ERec entries)).
+Proof. exact reparse_record_fixed_point. Qed.
+Check C08_reparse_record_fixed_point : forall parse els entries,
+  rels_pairs parse els = Outcome.Ok (Some (layout_pairs entries)) -> only_last_trailing entries = true ->
+  rec_arm_c parse els = Outcome.Ok (Some (ERec entries)).
+Print Assumptions C08_reparse_record_fixed_point.
+Theorem C08_reparse_do_fixed_point : forall parse body g stmts ret,
+  forallb d_not_ret body = true ->
+  dels_pairs parse body = Outcome.Ok (Some (do_layout_pairs stmts ret)) ->
+  parse g = Outcome.Ok (Some (cnode ret)) -> ctrailing ret = None ->
+  do_arm_c parse (body ++ [DRet g]) = Outcome.Ok (Some (EDo stmts ret)).
+Proof. exact reparse_do_fixed_point. Qed.
+Check C08_reparse_do_fixed_point : forall parse body g stmts ret,
+  forallb d_not_ret body = true ->
+  dels_pairs parse body = Outcome.Ok (Some (do_layout_pairs stmts ret)) ->
+  parse g = Outcome.Ok (Some (cnode ret)) -> ctrailing ret = None ->
+  do_arm_c parse (body ++ [DRet g]) = Outcome.Ok (Some (EDo stmts ret)).
+Print Assumptions C08_reparse_do_fixed_point.
+Theorem C08_reparse_list_stable_after_one_pass : forall parse els els2 ps,
+  lels_pairs parse els = Outcome.Ok (Some ps) -> eol_only_last ps = true ->
+  lels_pairs parse els2 = Outcome.Ok (Some (layout_pairs (attach ps))) ->
+  list_arm_c parse els2 = list_arm_c parse els.
+Proof. exact reparse_list_stable_after_one_pass. Qed.
+Check C08_reparse_list_stable_after_one_pass : forall parse els els2 ps,
+  lels_pairs parse els = Outcome.Ok (Some ps) -> eol_only_last ps = true ->
+  lels_pairs parse els2 = Outcome.Ok (Some (layout_pairs (attach ps))) ->
+  list_arm_c parse els2 = list_arm_c parse els.
+Print Assumptions C08_reparse_list_stable_after_one_pass.
+
+(* a statement that is a bare list: pairs_to_expr_with_comments on the crate's table IS attach on the parsed pairs *)
+Theorem C08_reparse_bare_list : forall els,
+  pratt_c [IList els] =
+  do ps <- lels_pairs (parse_items_c impl_table infix_map prefix_map (4 * items_size [IList els] + 1)) els;
+  Outcome.Ok (option_map (fun ps => EList (attach ps)) ps).
+Proof. exact pratt_c_bare_list. Qed.
+Check C08_reparse_bare_list : forall els,
+  pratt_c [IList els] =
+  do ps <- lels_pairs (parse_items_c impl_table infix_map prefix_map (4 * items_size [IList els] + 1)) els;
+  Outcome.Ok (option_map (fun ps => EList (attach ps)) ps).
+Print Assumptions C08_reparse_bare_list.
+
+(* the drivers' second pass with the re-parse done by the parser MODEL (a Coq term) instead of an unmodelled parser:
+   the two hypotheses are those of C08_lib_driver_second_pass about q = the program parse_program_c builds from the
+   Peg tree of the first output's text (both are compared with the implementation on every run: REPARSE / FORMAT) *)
+Theorem C08_reparse_second_pass_lib : forall O mw p d forest q,
+  format_lib O mw p = Some d ->
+  parse_program_c (render d) = PCOk forest q ->
+  map stmt_content q = map stmt_content p ->
+  map stmt_pos q = map triple_pos (relayout 1 (map_first (lib_stmt O mw) p)) ->
+  format_lib O mw q = Some d.
+Proof. exact reparse_second_pass_lib. Qed.
+Check C08_reparse_second_pass_lib : forall O mw p d forest q,
+  format_lib O mw p = Some d ->
+  parse_program_c (render d) = PCOk forest q ->
+  map stmt_content q = map stmt_content p ->
+  map stmt_pos q = map triple_pos (relayout 1 (map_first (lib_stmt O mw) p)) ->
+  format_lib O mw q = Some d.
+Print Assumptions C08_reparse_second_pass_lib.
+Theorem C08_reparse_second_pass_cli : forall O p forest q,
+  parse_program_c (render (format_cli O p)) = PCOk forest q ->
+  map stmt_content q = map stmt_content p ->
+  format_cli O q = format_cli O p.
+Proof. exact reparse_second_pass_cli. Qed.
+Check C08_reparse_second_pass_cli : forall O p forest q,
+  parse_program_c (render (format_cli O p)) = PCOk forest q ->
+  map stmt_content q = map stmt_content p ->
+  format_cli O q = format_cli O p.
+Print Assumptions C08_reparse_second_pass_cli.
